@@ -20,6 +20,8 @@ def build(H, tier, seed):
     C.vc_mathstr(H)
     C.vc_codegen_product(H)
     C.vc_product_operator(H, 'gp')
+    from contracts import inverse_c as I
+    I.vc_products_generic(H, tier, only_ops=('gp',))
     from contracts import dispatch_c as D
     D.vc_binary_chain(H, ['gp'])
     from contracts import codegen_glue_c as G
